@@ -11,6 +11,7 @@ import (
 	"path/filepath"
 	"sort"
 	"strconv"
+	"go/types"
 	"strings"
 	"time"
 )
@@ -270,6 +271,25 @@ func (w *World) CheckProperty(prop, tier string, timeoutMs int, dump string, ver
 				names = append(names, n)
 			}
 		}
+		// "impl_methods (Iface).Method": the contract of an interface method is what a dynamic call assumes; every
+		// repository type that implements the interface has its method verified against those clauses (a type added
+		// later is covered from its first day), and a rule that finds no implementation fails as vacuous
+		for _, im := range w.C.ImplMethods {
+			if !hasTag(im.Tags, prop) {
+				continue
+			}
+			for _, callee := range im.Callees {
+				found := w.bindImplMethods(im, callee, prop, inNames, &names)
+				o := &Obligation{Name: im.Allowed[0] + "." + callee + "/impl-methods#1", Func: im.Allowed[0] + "." + callee, Kind: "impl-methods", Tags: []string{prop},
+					Status: "discharged", Solver: "ssa-scan", Text: fmt.Sprintf("impl_methods %s: %d implementations under the interface contract", callee, found),
+					File: im.File, Line: im.Line}
+				if found <= 0 {
+					o.Status = "failed"
+					o.Detail = map[string]string{"why": "no interface contract, no such interface, or no repository implementation: the rule checks nothing"}
+				}
+				r.Structural = append(r.Structural, o)
+			}
+		}
 		work := []string{}
 		for _, n := range names {
 			if fc := w.C.Funcs[n]; fc != nil && fc.Sweep && hasTag(fc.SweepTags, prop) {
@@ -322,6 +342,9 @@ func (w *World) CheckProperty(prop, tier string, timeoutMs int, dump string, ver
 		fn := w.P.Funcs[n]
 		if fc != nil && fc.Trusted && fn != nil && !fc.Tags[prop] {
 			fc = nil // a trusted contract says nothing about locking: scan the body anyway
+		}
+		if fn == nil && fc != nil && w.implTarget(n) {
+			continue // the contract of an interface method: there is no body; its implementations are in names
 		}
 		if fn == nil {
 			o := &Obligation{Name: n + "/contract-binding#1", Func: n, Kind: "contract-binding", Tags: []string{prop}, Status: "failed",
@@ -602,6 +625,10 @@ func (r *PropResult) Report() int {
 	}
 	sort.Strings(uc)
 	for _, k := range uc {
+		if r.W.implTarget(k) {
+			assumptions = append(assumptions, "interface contract, proved for every repository implementation by the impl_methods rule (checked under the properties the rule is tagged with): "+k)
+			continue
+		}
 		assumptions = append(assumptions, "assumed contract: "+k)
 	}
 	var ab []string
@@ -713,6 +740,90 @@ func hasLoop(fn *ssa.Function) bool {
 	for _, b := range fn.Blocks {
 		for _, s := range b.Succs {
 			if s.Index <= b.Index && s.Dominates(b) {
+				return true
+			}
+		}
+	}
+	return false
+}
+
+// bindImplMethods puts every repository implementation of the interface method named by callee ("(Iface).Method", in
+// the package of the rule) under the clauses of the interface contract. It returns the number of implementations
+// that are verified (own contract or the derived one).
+func (w *World) bindImplMethods(im *CallersRule, callee, prop string, inNames map[string]bool, names *[]string) int {
+	pkg := im.Allowed[0]
+	ifc := w.C.Funcs[pkg+"."+callee]
+	open := strings.Index(callee, "(")
+	cl := strings.Index(callee, ").")
+	if ifc == nil || open != 0 || cl < 0 {
+		return 0
+	}
+	iname, mname := strings.TrimPrefix(callee[1:cl], "*"), callee[cl+2:]
+	pp := w.P.PkgByPath[pkg]
+	if pp == nil || pp.Types == nil {
+		return 0
+	}
+	obj := pp.Types.Scope().Lookup(iname)
+	if obj == nil {
+		return 0
+	}
+	iface, ok := obj.Type().Underlying().(*types.Interface)
+	if !ok {
+		return 0
+	}
+	all := make([]string, 0, len(w.P.Funcs))
+	for n := range w.P.Funcs {
+		all = append(all, n)
+	}
+	sort.Strings(all)
+	found := 0
+	for _, n := range all {
+		fn := w.P.Funcs[n]
+		if fn == nil || len(fn.Blocks) == 0 || fn.Parent() != nil || fn.Synthetic != "" || fn.Signature.Recv() == nil || fn.Name() != mname || !w.P.InRepo(FuncPkgPath(fn)) {
+			continue
+		}
+		if !types.Implements(fn.Signature.Recv().Type(), iface) {
+			continue
+		}
+		found++
+		if own := w.C.Funcs[n]; own != nil {
+			// a contract of its own: the interface clauses are added to it (proved in the body like its own)
+			if own.Trusted {
+				found--
+				continue
+			}
+			for _, c := range ifc.Ensures {
+				cc := *c
+				cc.Tags = append([]string{}, im.Tags...)
+				cc.Index = len(own.Ensures)
+				own.Ensures = append(own.Ensures, &cc)
+			}
+			own.Tags[prop] = true
+			if !inNames[n] {
+				inNames[n] = true
+				*names = append(*names, n)
+			}
+			continue
+		}
+		nc := &FuncContract{Name: n, Pkg: FuncPkgPath(fn), Pure: ifc.Pure, Allocates: ifc.Allocates, HasMod: ifc.HasMod, Modifies: ifc.Modifies,
+			Tags: map[string]bool{prop: true}, Nilable: map[string]bool{}, File: im.File, Line: im.Line}
+		for _, c := range ifc.Ensures {
+			cc := *c
+			cc.Tags = append([]string{}, im.Tags...)
+			nc.Ensures = append(nc.Ensures, &cc)
+		}
+		w.C.Funcs[n] = nc
+		inNames[n] = true
+		*names = append(*names, n)
+	}
+	return found
+}
+
+// implTarget reports whether the canonical name is an interface method named by an impl_methods rule.
+func (w *World) implTarget(n string) bool {
+	for _, im := range w.C.ImplMethods {
+		for _, c := range im.Callees {
+			if im.Allowed[0]+"."+c == n {
 				return true
 			}
 		}
